@@ -398,20 +398,20 @@ def _DefocusPSF_1D(PSF_size, PSF_param):
     if PSF_param is None:
         PSF_param = 10
 
-    center = np.fix(int(PSF_size/2))
+    center = int(PSF_size/2) # zero-based index of the center
     if (PSF_param == 0):    
         # the PSF is a delta function and so the blurring matrix is I
         PSF = np.zeros(PSF_size)
         PSF[center] = 1
     else:
         PSF = np.ones(PSF_size) / (np.pi * PSF_param**2)
-        k = np.arange(1, PSF_size+1)
+        k = np.arange(PSF_size) # zero-based, as center
         aa = (k-center)**2
         idx = np.array((aa > (PSF_param**2)))
         PSF[idx] = 0
     PSF = PSF / PSF.sum()
 
-    return PSF, center.astype(int)
+    return PSF, center
 
 def _getCirculantMatrix(dim, PSF, PSF_param):
     """
@@ -1385,14 +1385,14 @@ def _DefocusPSF(dim, R):
     else:
         m, n = dim, dim
     
-    center = np.fix((np.array([m, n]))/2)
+    center = np.fix((np.array([m, n]))/2).astype(int) # zero-based index of the center
     if (R == 0):    
         # the PSF is a delta function and so the blurring matrix is I
         PSF = np.zeros((m, n))
         PSF[center[0], center[1]] = 1
     else:
         PSF = np.ones((m, n)) / (np.pi * R**2)
-        k = np.arange(1, max(m, n)+1)
+        k = np.arange(max(m, n)) # zero-based, as center
         aa, bb = (k-center[0])**2, (k-center[1])**2
         A, B = np.meshgrid(aa, aa), np.meshgrid(bb, bb)
         idx = np.array(((A[0].T + B[0]) > (R**2)))
